@@ -720,6 +720,13 @@ impl<V: Val> Runner<V> {
                         }
                         if !explained {
                             obs.findings.push(Finding { property: "C05", monitor: "needless-eviction", detail: format!("put k{k} ({fp} bytes): removed {:?} although the total {} (with the new value) and max_memory {m} do not require it", removed, tot(&mut cand_keys.iter().copied())) });
+                            // neither the memory bound nor the entry limit asked for it: with a limit configured that is the
+                            // limit's exactness clause as well ("a store that does not overflow removes nothing")
+                            if let Some(nlim) = cfg.limit {
+                                if n <= nlim && tot(&mut cand_keys.iter().copied()) <= m {
+                                    obs.findings.push(Finding { property: "C04", monitor: "needless-eviction", detail: format!("put k{k}: {} entries (with the new one), limit {nlim}, {} of {m} bytes: nothing overflows, yet {:?} went", n, tot(&mut cand_keys.iter().copied()), removed) });
+                                }
+                            }
                         }
                     }
                 }
